@@ -117,6 +117,8 @@ func withR(op Op, r int) Op {
 // bigCases: the deterministic list for a tier. Sizes up to 1025 (quick) are crossed with every drain; order and value
 // pattern rotate so that every (size, drain) pair meets several of them over the list. thorough crosses sizes up to
 // 1025 with every order as well and adds the sizes around 8192 and 16384.
+var enumProcs = []int{0, 1, 2, 3, 5, 6, 7, 12, 16}
+
 func bigCases(tier string, yield func(Case) bool) {
 	k := 0
 	// heavy: which of the three heavy shapes (init-drain, add-drain, yoyo; cost ~ n*n) to emit, -1 = all
@@ -125,6 +127,8 @@ func bigCases(tier string, yield func(Case) bool) {
 			if i < 3 && heavy >= 0 && i != heavy {
 				continue
 			}
+			// GOMAXPROCS rotates with the case number
+			c.Procs = enumProcs[(k+i)%len(enumProcs)]
 			if !yield(c) {
 				return false
 			}
@@ -178,7 +182,7 @@ var specBig = pbt.Register(&pbt.Spec[Case]{
 	Rule: "enumerated BIG histories for every size n in {15,16,17,20,21,22} and {p-1,p,p+1 : p = 32,64,...,4096} (thorough: ...,16384) and every way of draining (RemoveAt first/last/middle/scattered position, Remove of scattered/ascending/descending values): " +
 		"(1) NewSorted over n values then drained to empty and beyond in blocks with Sweeps in between, (2) n Adds from empty then drained, (3) drained to under a quarter, regrown past n, drained, " +
 		"(4) 41 rounds of Add v/RemoveAt below/Index v/Remove w/Index v/Contains v/Add u/RemoveAt last/Index u/RemoveAt middle/Index u/Sweep at size n, (5) the length oscillating across n; " +
-		"value patterns ascending, descending, all-equal, two values, 7 values scattered, pairs, mostly distinct; all 15 orders/element types in rotation (quick: two orders per size and drain up to 1025, above that one order and, of the shapes 1-3, one per size and drain such that over p-1,p,p+1 each drain meets each; thorough: every order up to 1025, all shapes up to 8193). " + rule + ruleNT,
+		"value patterns ascending, descending, all-equal, two values, 7 values scattered, pairs, mostly distinct; GOMAXPROCS 4 (the process default set in plan.json), 1, 2, 3, 5, 6, 7, 12, 16 in rotation; all 15 orders/element types in rotation (quick: two orders per size and drain up to 1025, above that one order and, of the shapes 1-3, one per size and drain such that over p-1,p,p+1 each drain meets each; thorough: every order up to 1025, all shapes up to 8193). " + rule + ruleNT,
 	Enum: func(shard, shards int, tier string, yield func(Case) bool) {
 		i := 0
 		bigCases(tier, func(c Case) bool {
@@ -199,7 +203,13 @@ var bigSizesThorough = append(append([]int{}, bigSizes...), 511, 512, 513, 700, 
 var bigStrides = []int{0, 1, -1, 2, 5, 7, 11, 13, 97, -3, 7919}
 var bigVals = []int{1, 2, 3, 7, 7, 30, 300, 5000}
 
-var bigOpGen = opGenWith(300, []int{0, 0, 0, 0, 0, 0, 0, 0, 1, 2, 3, 7, 16, 33, 70}, []int{0, 0, 1, -1, 3, 7, 13})
+// bigKindTable: one op in 26 is a runtime.GC() in the middle of the history.
+var bigKindTable = append(append([]int{}, kindTable...), opGC)
+
+// 0 = the GOMAXPROCS of the unit's process (4, set in plan.json)
+var bigProcs = []int{0, 0, 0, 0, 0, 0, 1, 2, 3, 5, 6, 7, 12, 16}
+
+var bigOpGen = opGenWith(bigKindTable, 300, []int{0, 0, 0, 0, 0, 0, 0, 0, 1, 2, 3, 7, 16, 33, 70}, []int{0, 0, 1, -1, 3, 7, 13})
 
 func genBig(t *rapid.T, sizes []int) Case {
 	c := Case{Order: rapid.SampledFrom(allOrders).Draw(t, "order"), Vals: rapid.SampledFrom(bigVals).Draw(t, "vals")}
@@ -217,13 +227,14 @@ func genBig(t *rapid.T, sizes []int) Case {
 		c.Ops = []Op{}
 	}
 	c.Rounds = rapid.SampledFrom([]int{0, 0, 0, 0, 1, 2, 3, 8}).Draw(t, "rounds")
+	c.Procs = rapid.SampledFrom(bigProcs).Draw(t, "procs")
 	return c
 }
 
 var specBigRand = pbt.Register(&pbt.Spec[Case]{
 	Property: "C07", Name: "C07.bigrand",
 	Rule: "rapid: BIG random histories: all 15 orders/element types; initial input = 0..6 explicit values plus 1..3 arithmetic runs whose lengths are drawn from sizes around 20, 32, 48, 64, 128, 256 (thorough: also 512, 1024), strides 0, +-1, small and large primes, Vals in {1,2,3,7,30,300,5000}; " +
-		"0..34 ops (raw arguments 0..300), each repeated 1..71 times (half of them once) with strides, the list run 1..9 times. " + rule + ruleNT,
+		"0..34 ops (raw arguments 0..300; one op in 26 is a runtime.GC(), once or twice), each repeated 1..71 times (half of them once) with strides, the list run 1..9 times; GOMAXPROCS 4 (process default, 6 cases in 14) or 1, 2, 3, 5, 6, 7, 12, 16. " + rule + ruleNT,
 	Gen: func(t *rapid.T) Case {
 		if pbt.GetEnv().Tier == "thorough" {
 			return genBig(t, bigSizesThorough)
